@@ -119,6 +119,8 @@ impl Parser for MarkdownParser {
                             line: starting_line_number,
                         });
                     }
+                    // a code block ends the paragraph before it
+                    title_paragraph.clear();
                 }
                 MarkdownToken::TestCodeBlock {
                     language: _,
